@@ -240,7 +240,8 @@ func init() {
 						pruned = true
 					}
 				default:
-					if out.Err == nil {
+					// (LoadVersion on a store without versions keeps the uncommitted writes)
+					if out.Err == nil && !(op.Kind == "load" && e.M.Latest == 0) {
 						cur = nil
 					}
 				}
